@@ -440,6 +440,9 @@ func (e *Exec) check(c *Term, label string, kind string, msg string) {
 		e.syntVCs++
 		return
 	}
+	if kind == "assert" && !e.w.cur.Spec.counts(label) {
+		return // a clause of another property, asserted by a shared harness: not this check's
+	}
 	e.nontriv = true
 	if d, ok := e.nextPrefix(); ok {
 		// this VC was already decided on the path that created the prefix
